@@ -1,5 +1,5 @@
 import ArgoVerif.Proofs.RWLock
-/- Proofs.RWLock2 — invariant preservation for ret / mutexLock / mutexUnlock / enq / sleep / wake. -/
+/- Proofs.RWLock2 — invariant preservation for ret / mutexLock / mutexUnlock / enq (Proofs.RWLock5: sleep / wake). -/
 namespace ArgoVerif.Model.RWLock
 open ArgoVerif
 set_option maxHeartbeats 4000000
@@ -21,29 +21,6 @@ theorem inv_stepEnq (s s' : St) (a : Actor) (h : Inv s) (hs : stepEnq s a = some
   unfold stepEnq at hs
   split at hs
   · cases hs; exact h
-  · cases hs
-
-theorem inv_stepSleep (s s' : St) (a : Actor) (h : Inv s) (hs : stepSleep s a = some s') : Inv s' := by
-  unfold stepSleep at hs
-  (repeat' (split at hs)) <;> close_tac h hs
-
-theorem inv_stepWake (s s' : St) (a n : Actor) (h : Inv s) (hs : stepWake s a n = some s') : Inv s' := by
-  unfold stepWake at hs
-  split at hs
-  · rename_i hd tl hpc hq
-    split at hs
-    · rename_i hn
-      have hmem : n ∈ s.q := by rw [hq, hn]; simp
-      have hnd : n ∉ tl ∧ tl.Nodup := by
-        have := h.nodup; rw [hq, hn] at this; exact List.nodup_cons.mp this
-      have hsl : Asleep (s.pc n) := (h.qIff n).mp hmem
-      have htl : ∀ x, x ∈ tl ↔ (x ∈ s.q ∧ x ≠ n) := by
-        intro x; rw [hq, hn]; simp only [List.mem_cons]; grind
-      have hw : (s.pc n = .rSleep ∧ wokenPc (s.pc n) = .rWoken) ∨ (s.pc n = .wSleep ∧ wokenPc (s.pc n) = .wWoken) := by
-        generalize s.pc n = p at hsl
-        cases p <;> simp [Asleep, wokenPc] at hsl ⊢
-      close_tac h hs
-    · cases hs
   · cases hs
 
 end ArgoVerif.Model.RWLock
